@@ -69,6 +69,8 @@ type c09case struct {
 	secondRPC   bool
 	late        bool // the server sends its hello only after it has received the client's
 	cutAt       int  // >0: exactly two reads, cut after this many bytes
+	delayUs     int  // channel read delay
+	pauseUs     int  // transport: pause before every read returns (slow link)
 }
 
 const c09password = "s3cret"
@@ -205,6 +207,10 @@ func genC09(seed uint64, cell int, thorough bool) c09case {
 		if cs.auth == 1 && x.Chance(1, 2) {
 			cs.loginBanner = x.Pick([]string{"Ubuntu 22.04 LTS\n", "\nACME SSH gateway\nuser@10.0.0.1's ", ""})
 		}
+	}
+	cs.delayUs = []int{20, 40, 40, 250}[x.Intn(4)]
+	if x.Chance(1, 6) {
+		cs.pauseUs = x.Range(30, 300)
 	}
 	cs.forceSelf = x.Chance(1, 4)
 	cs.exclHdr = x.Chance(1, 4)
@@ -539,8 +545,9 @@ func runC09case(cs c09case) c09obs {
 		srv.WriteErrAfter = skipWritten
 	}
 	opts := []util.Option{options.WithCustomTransport(impl),
-		options.WithTimeoutOps(cs.timeout), options.WithReadDelay(40 * time.Microsecond),
+		options.WithTimeoutOps(cs.timeout), options.WithReadDelay(time.Duration(c09or(cs.delayUs, 40)) * time.Microsecond),
 		options.WithPromptSearchDepth(cs.depth), options.WithTransportReadSize(cs.readSize)}
+	srv.ReadPause = time.Duration(cs.pauseUs) * time.Microsecond
 	if cs.auth > 0 {
 		opts = append(opts, options.WithAuthUsername("u"), options.WithAuthPassword(c09password))
 	} else {
@@ -816,6 +823,18 @@ func runC09(c *ctx) {
 	res.Rule = "real netconf.NewDriver(...).Open() + first GetConfig over sim.NCServer: the 12 cells {advertised subset of base:1.0/1.1} x {preferred none/1.0/1.1} enumerated round-robin x hello layouts of the grammar (declaration, namespace prefix, attribute text, inter-element white space incl. CR, 0-300 extra capability URIs incl. query strings / near-miss base URIs / duplicates / empty, session-id absent / 0 / 2^32-1 / 2^63-1 / beyond / leading zeros) x trailing bytes x read segmentations (whole, 1-byte, fixed, random, cut inside the delimiter) x transport read sizes 1..65535 x search depths 8..5000 x echo on/off; plus well-framed non-hello messages, an adversarial stream of malformed hellos (model of the code only) and invalid preferred-version strings; plus HISTORIES on one driver object (8 templates: getters before the first Open, between sessions and after Close; Open/Close/Open against servers advertising different capability sets, versions and session-ids; a failing Open followed by further Opens), each run twice (with and without the getter calls). non-trivial = in-domain grammar case (theorem hypotheses hold on the observed chunks) whose hello has a prefix, an extra capability, a session-id or more than one read; distinct by case seed"
 	if c.replay != "" {
 		f := strings.Fields(c.replay)
+		if len(f) >= 1 && f[0] == "c09ctor" {
+			c09constructor(c)
+			return
+		}
+		if len(f) >= 1 && f[0] == "c09system" {
+			c09system(c)
+			return
+		}
+		if len(f) >= 1 && f[0] == "c09pref" {
+			c09options(c)
+			return
+		}
 		if len(f) >= 2 && f[0] == "c09hist" {
 			seed, _ := strconv.ParseUint(f[1], 10, 64)
 			c09histories(c, []c09hist{genC09hist(seed)})
@@ -1028,7 +1047,7 @@ func c09check(c *ctx, cases []c09case) {
 		all[i] = i
 	}
 	t0 := time.Now()
-	c09runAll(cases, obs, all, 16)
+	c09runAll(cases, obs, all, vlib.Conc(16))
 	tSess := time.Since(t0)
 	lines := make([]string, len(cases))
 	wire := make([]string, len(cases))
@@ -1117,6 +1136,7 @@ func c09check(c *ctx, cases []c09case) {
 			res.Fail("oracle", caseLine, fmt.Sprintf("Open failed with %s (%s) but the transport was left open (Open calls %d, Close calls %d)", o.openClass, o.openErr, o.openCalls, o.closeCalls), "failed-open-leaves-transport-open")
 		}
 		res.Count(fmt.Sprintf("auth:%d", cs.auth))
+		res.Count(fmt.Sprintf("read-delay-us:%d slow-link:%v", c09or(cs.delayUs, 40), cs.pauseUs > 0))
 		if cs.pre != "" {
 			res.Count("banner-before-hello")
 		}
@@ -1325,6 +1345,13 @@ func c09knownRecorded(id string) bool {
 		}
 	}
 	return false
+}
+
+func c09or(v, d int) int {
+	if v == 0 {
+		return d
+	}
+	return v
 }
 
 func c09b(b bool) int {
